@@ -473,7 +473,15 @@ static int _yr_scan_verify_chained_string_match(
       // ending_offset.
       ending_offset = match->offset + match->match_length;
 
-      if (ending_offset + matching_string->chain_gap_max < lowest_offset)
+      // Candidates of the current string arrive in the order of their atoms'
+      // END, not in the order of the matches' START: a later candidate can
+      // start up to YR_RE_SCAN_LIMIT + YR_MAX_ATOM_LENGTH bytes before the
+      // current one (other alternative / longer backward match), so an
+      // unconfirmed match may only be discarded when it is out of reach for
+      // those too.
+      if (ending_offset + matching_string->chain_gap_max + YR_RE_SCAN_LIMIT +
+              YR_MAX_ATOM_LENGTH <
+          lowest_offset)
       {
         // If the current match is too far away from the unconfirmed match,
         // remove the unconfirmed match from the list because it has been
